@@ -300,9 +300,14 @@ package locate
 //@   at return assert outcome: done ==> s.vars.err != nil || s.vars.resp != nil
 
 // Read-timestamp validation looks at the timestamp and the stale-read flag the request really carries.
+// (ghost: RegionRequestSender.validations counts the calls of validateReadTS - both entry points, the synchronous and the
+// asynchronous one, run it once on every request, stale read or not, before anything is sent)
+//@ ghost field RegionRequestSender.validations int
 //@ func (*RegionRequestSender) validateReadTS
 //@   prop C10
 //@   may-panic
+//@   modifies-also RegionRequestSender.validations of s
+//@   postulate s.validations == old(s.validations) + 1
 //@   at call(ValidateReadTS) assert asked: arg_readTS == readTS && arg_isStaleRead == req.StaleRead
 //@   ensures reads: (req.StoreTp != tikvrpc.TiDB && (req.Type == tikvrpc.CmdGet || req.Type == tikvrpc.CmdScan || req.Type == tikvrpc.CmdBatchGet || req.Type == tikvrpc.CmdCop || req.Type == tikvrpc.CmdCopStream ||
 //@       req.Type == tikvrpc.CmdBatchCop || req.Type == tikvrpc.CmdScanLock || req.Type == tikvrpc.CmdBufferBatchGet)) || result == nil
@@ -474,3 +479,21 @@ package locate
 //@   may-panic
 //@   opaque-callee resetSyncFlags observeLoadRegion setSyncFlags insertRegionToCache getStore
 //@   ensures byid: result1 == nil ==> result0 != nil && result0.Region.id == regionID
+
+// The asynchronous entry point validates every request like the synchronous one, and ends the call with the validation error
+// without sending when the validator refuses.
+//@ func (*RegionRequestSender) SendReqAsync
+//@   prop C10
+//@   may-panic
+//@   opaque-callee failpointSendReqResult disableReadFeaturesForNextGen reset GetTotalSleep Inject next Invoke Schedule send logSendReqError
+//@   at call(reset) assert validated: s.validations == old(s.validations) + 1
+
+// The visitor of removeIntersecting calls the incoming region stale only because a visited (intersecting) cached region
+// has a larger VERSION - the epoch component that orders key-range changes across regions; conf versions of different
+// regions are not comparable and play no part here.
+//@ func (*SortedRegions) removeIntersecting$1
+//@   prop C09
+//@   bytes: key
+//@   may-panic
+//@   opaque-callee Inc
+//@   ensures staleonly: stale && !old(stale) ==> verOf(item.cachedRegion) > verID.ver
